@@ -560,6 +560,53 @@ def senderrStep (codec : String) (d : SendDrv) (tok : String) : SendDrv × Strin
       | _, _ => (d, "bad-step")
     | _ => (d, "bad-step")
 
+
+/-! op `negom <codec> <numconns> <nhosts> <step>…` — one real Session over several hosts whose SUPPORTED
+    sets differ: `a<h>=<sup>` host h advertises <sup> from now on · `s` the session starts, every host's
+    pool fills · `k<h>/<i>` the i-th live connection of host h (order of establishment) is lost and its pool refills. Answer after `s` / `k`:
+    per host, the live connections' observations by class (Model/CompressRecv.lean `runHosts`). -/
+
+structure NegomSt where
+  advs    : List Supported
+  live    : List (List ConnObs)
+  started : Bool
+
+def negomShow (live : List (List ConnObs)) : String :=
+  "|".intercalate ((List.range live.length).map fun h => s!"h{h}:{negosShow (live.getD h [])}")
+
+def negomStep (name : Option String) (numConns : Nat) (s : NegomSt) (tok : String) : NegomSt × String :=
+  match tok.toList with
+  | 'a' :: rest =>
+    match (String.ofList rest).splitOn "=" with
+    | h :: sup =>
+      match h.toNat? with
+      | some h =>
+        if h < s.advs.length then ({ s with advs := s.advs.set h (parseSupported ("=".intercalate sup)) }, "ok")
+        else (s, "bad-step")
+      | none => (s, "bad-step")
+    | _ => (s, "bad-step")
+  | ['s'] =>
+    if s.started then (s, "bad-step") else
+    -- every host's pool fills: numConns connections to each host, in some interleaving; by
+    -- C18_negotiation_per_host the interleaving does not matter
+    let conns := (List.range s.advs.length).flatMap fun h => List.replicate numConns (h, s.advs.getD h [])
+    let obs := runHosts .perConn name none conns
+    let live := (List.range s.advs.length).map fun h => (obs.filter (·.1 == h)).map (·.2)
+    ({ s with live := live, started := true }, negomShow live)
+  | 'k' :: rest =>
+    match (String.ofList rest).splitOn "/" with
+    | [hs, is] =>
+      match hs.toNat?, is.toNat? with
+      | some h, some i =>
+        let old := s.live.getD h []
+        if !s.started || h ≥ s.live.length || i ≥ old.length then (s, "bad-step") else
+        let new := (runHosts .perConn name none [(h, s.advs.getD h [])]).map (·.2)
+        let live := s.live.set h (old.eraseIdx i ++ new)
+        ({ s with live := live }, negomShow live)
+      | _, _ => (s, "bad-step")
+    | _ => (s, "bad-step")
+  | _ => (s, "bad-step")
+
 def step (_ : Unit) (ws : List String) : Unit × String :=
   ((), match ws with
   | ["req", kind, comp, ver, extra, stream, body, encres, _, _] =>
@@ -649,6 +696,17 @@ def step (_ : Unit) (ws : List String) : Unit × String :=
     match ver.toNat?, hflag.toNat?, bodyLen.toNat?, parseLenRes enc, parseLenRes dec with
     | some v, some hf, some n, some e, some d => bigOp comp v hf n e d
     | _, _, _, _, _ => "bad-op"
+  | ["rxbig", _, flag, _, _, plen, dec] =>
+    -- a response of plen payload bytes on a v4 connection with the codec negotiated, to a waiting call:
+    -- Conn.recv hands readFrame's outcome to the call and goes on (C18_recv_transparent,
+    -- C18_recv_compressed_error); readFrame through lengths (C18_read_by_length)
+    match flag.toNat?, plen.toNat?, parseLenRes dec with
+    | some fl, some pl, some d =>
+      let fb := (UInt8.ofNat fl &&& flagCompress) == flagCompress
+      (match readLen (toInt32 (pl % 4294967296)) pl fb (some (d.getD (.error ()))) with
+       | .ok n => s!"resp=ok:len={n},same=true alive"
+       | .error e => s!"resp={errName e} alive")
+    | _, _, _ => "bad-op"
   | ["bigx", comp, ver, hflag, bodyLen, _, enc, dec] =>
     match ver.toNat?, hflag.toNat?, bodyLen.toNat?, parseLenRes enc, parseLenRes dec with
     | some v, some hf, some n, some e, some d => bigOp comp v hf n e d
@@ -658,6 +716,11 @@ def step (_ : Unit) (ws : List String) : Unit × String :=
     -- C18_lz4_delivered: Encode succeeds, prefix = length, an independent block decoder and Decode give the body back
     match parseBytes body with
     | some b => s!"ok prefix={b.length % 4294967296} block=true dec=true"
+    | none => "bad-op"
+  | ["midrt", codec, _, n] =>
+    -- as `lz4rt` / `hyp`, for a body given by its length only (C18_lz4_delivered; Codec.RoundTrips sampled)
+    match n.toNat? with
+    | some n => if codec == "lz4" then s!"ok prefix={n % 4294967296} block=true dec=true" else "roundtrip"
     | none => "bad-op"
   | ["lz4dst", n] =>
     match n.toNat? with
@@ -684,6 +747,12 @@ def step (_ : Unit) (ws : List String) : Unit × String :=
     match nc.toNat? with
     | some n => runSteps (negosStep (if codec == "none" then none else some codec) n) { adv := [], live := [], started := false } steps
     | none => "bad-op"
+  | "negom" :: codec :: nc :: nh :: steps =>
+    match nc.toNat?, nh.toNat? with
+    | some n, some k =>
+      runSteps (negomStep (if codec == "none" then none else some codec) n)
+        { advs := List.replicate k [], live := [], started := false } steps
+    | _, _ => "bad-op"
   | "senderr" :: codec :: toks =>
     runSteps (senderrStep codec) { st := SendSt.init, pending := [], next := 1 } toks
   | "held" :: _ :: toks => runSteps heldStep St.init toks
